@@ -11,6 +11,7 @@ import (
 	"github.com/cybergarage/go-redis/redis/proto"
 	"verif/fw"
 	"verif/resp"
+	"verif/seq"
 )
 
 // c01MaxNesting is the nesting depth the parser documents as its limit.
@@ -69,6 +70,25 @@ func c01CheckValue(v resp.Value) (clause, detail string) {
 	}
 	if !back.Equal(v) {
 		return "roundtrip-value", fmt.Sprintf("parse(serialize(%s)) = %s", v, back)
+	}
+	// the same bytes handed over in pieces (a value is a value however the transport delivers
+	// it; C02 enumerates chunkings, here one fine and one coarse stride ride along)
+	for _, stride := range []int{3, 4093} {
+		if (stride == 3 && len(want) > 4200) || (stride > 3 && len(want) <= stride) {
+			continue
+		}
+		var mc *proto.Message
+		var cerr2 error
+		cp := proto.NewParserWithReader(seq.NewChunkReader(want, nil, stride))
+		if p := guard(func() { mc, cerr2 = cp.Next() }); p != "" {
+			return "parse-panic", p
+		}
+		if cerr2 != nil || mc == nil {
+			return "parse-error", fmt.Sprintf("parse(%s) delivered in pieces of %d bytes: value=%v err=%v", trunc(want, 80), stride, mc != nil, cerr2)
+		}
+		if back2, absent2, cerr3 := fromProto(mc, 0); cerr3 != nil || absent2 || !back2.Equal(v) {
+			return "roundtrip-value", fmt.Sprintf("parse(serialize(%s)) delivered in pieces of %d bytes = %s", v, stride, back2)
+		}
 	}
 	// re-serialise the parsed object
 	var again []byte
